@@ -191,6 +191,11 @@ def _variants(kind, es, ns, d1, d2, w, perm, seed):
     return out
 
 
+def _ro(x):
+    x.setflags(write=False)
+    return x
+
+
 def impl(case):
     kind, params, es, ns, d1, d2, w, perm, a, b, qe, qn, seed = case["args"]
 
@@ -212,6 +217,24 @@ def impl(case):
                 if any(x.shape != (4, 3) for x in p):
                     raise RuntimeError(f"{name}: prediction shape {p[0].shape} is not the broadcast shape (4, 3)")
                 res[name] = [x.ravel().tolist() for x in p]
+            # the same query points handed over in other memory layouts / shapes: same values at the same logical positions
+            gq = build(kind, params)
+            gq.fit(*allv["base"])
+            big = np.full((8, 6), -777.0)
+            def view(x):
+                b = big.copy()
+                b[::2, 1::2] = x
+                return b[::2, 1::2]
+            qvars = {"query-F": (np.asfortranarray(qE), np.asfortranarray(qN)), "query-T-view": (qE.T.copy().T, qN.T.copy().T),
+                     "query-strided-view": (view(qE), view(qN)), "query-mixed-orders": (np.asfortranarray(qE), qN.copy()),
+                     "query-3d": (qE.reshape(2, 2, 3), np.asfortranarray(qN.reshape(2, 2, 3))), "query-1d": (qE.ravel(), qN.ravel()),
+                     "query-readonly-F": tuple(_ro(np.asfortranarray(x)) for x in (qE, qN))}
+            for nm, qv in qvars.items():
+                pq = gq.predict(qv)
+                pq = [np.asarray(x, dtype=float) for x in (pq if isinstance(pq, tuple) else (pq,))]
+                if any(x.shape != qv[0].shape for x in pq):
+                    raise RuntimeError(f"{nm}: prediction shape {pq[0].shape} is not the query's shape {qv[0].shape}")
+                res[nm] = [x.ravel().tolist() for x in pq]
             # integer query coordinates give the same predictions as float ones
             coords, data, weights = _variants(kind, es, ns, d1, d2, w, perm, seed)["base"]
             iq = (np.array(IQ[0]), np.array(IQ[1]))
